@@ -58,6 +58,13 @@ def float_case(rng, fmt, W):
         # the binades just below one: (0.25, 1) must truncate to 0
         e = bias + rng.choice([-1, -1, -2])
         m = rng.choice([0, 1, 1 << (mb - 1), (1 << mb) - 1, rng.randrange(1 << mb)])
+    elif c == 7:
+        # exactly 2^k for k at digit boundaries (8, 16, 32, 64, ...) and its neighbours
+        k = rng.choice([8, 16, 24, 32, 40, 48, 64, 96, 128, W - 8, W - 1, W])
+        e = min((1 << eb) - 2, max(1, k + bias))
+        m = rng.choice([0, 0, 1, (1 << mb) - 1])
+        if m == (1 << mb) - 1:
+            e = max(1, e - 1)
     elif c <= 8:
         # k + {0, 1/2, 1-ulp}: small magnitudes with fractional parts (binades -2 .. mb+1)
         e = bias + rng.randrange(-3, mb + 3)
@@ -68,7 +75,25 @@ def float_case(rng, fmt, W):
     return "f", (sign << (bits - 1)) | (e << mb) | m
 
 
+def exponent_sweep(rng, fmt, W):
+    """one float per exponent value (both signs): every decoded exponent the conversion code can branch on"""
+    p, eb, bits = FMT[fmt]
+    mb = p - 1
+    bias = (1 << (eb - 1)) - 1
+    exps = range(0, 1 << eb) if eb <= 8 else sorted(set(list(range(bias - 80, bias + 80)) + list(range(max(0, bias + W - 70), min((1 << eb), bias + W + 70))) + [0, 1, (1 << eb) - 2, (1 << eb) - 1]))
+    for e in exps:
+        for sign in (0, 1):
+            m = rng.choice([0, 1, (1 << mb) - 1, rng.randrange(1 << mb)])
+            yield (sign << (bits - 1)) | (e << mb) | m
+
+
 def gen(rng, tier):
+    for cfg in ["8x1", "16x1", "64x2", "8x17"] + (["32x3", "64x16"] if tier == "thorough" else []):
+        w, n = wn(cfg)
+        for s in "ui":
+            for fmt in ("f32", "f64"):
+                for f in exponent_sweep(rng, fmt, w * n):
+                    yield f"from_{fmt} {s}{cfg} {hx(f)}", "exponent-sweep"
     reps = 300 if tier == "thorough" else 60
     for cfg in cfgs(tier):
         w, n = wn(cfg)
